@@ -855,6 +855,69 @@ func c13HTTPSchedules(s *c13Server) {
 			h.s1(p)
 		}
 	})
+	// S7: three-party overlap — a second download of the same producer sent while the first is still
+	// being serialized, after an update completed in between
+	run("S7", func(h *c13HTTPHist) { p, _ := pick2(); h.s7(p, []int{p}, true) })
+	run("S7b", func(h *c13HTTPHist) { p, _ := pick2(); h.s7(p, []int{p, p}, true) })
+	run("S7c", func(h *c13HTTPHist) { p, p2 := pick2(); h.s7(p, []int{p2, p}, true) })
+	if s4p >= 0 {
+		run("S7d", func(h *c13HTTPHist) { h.s7(s4p, []int{s4p}, false) })
+	}
+	run("S7", func(h *c13HTTPHist) { p, _ := pick2(); h.s7(p, []int{p}, true) })
+}
+
+// s7: u q v0 | download R1 of p held in Write (past Artifact()) | POST u q v1 completes | NOW, R1 still
+// held, the downloads `second` (of p itself, or of other producers) are sent by other clients: invoked
+// after the POST's response, they must show v1 (the gate was armed for ONE passage: they are not held).
+// They are given 300 ms to answer; then R1 is released and everything is collected; R3 = one more download
+// of p.  The pattern is run twice (second time with another parameter p depends on, if there is one).
+// related=false: the POST updates a parameter p does NOT depend on (control: the old value is right).
+func (h *c13HTTPHist) s7(p int, second []int, related bool) {
+	s := h.s
+	for rep := 0; rep < 2; rep++ {
+		q, _ := s.dependsOn(p, true)
+		h.call(1, c13Call{kind: 'u', p: q, v: s.unique()})
+		r1, held := h.blocked(0, []int{p})
+		qu := q
+		if !related {
+			qu, _ = s.dependsOn(p, false)
+		}
+		h.call(1, c13Call{kind: 'u', p: qu, v: s.unique()})
+		var r2 []chan string
+		for i, p2 := range second {
+			r2 = append(r2, h.async(2+i, c13Call{kind: 'a', p: p2}))
+		}
+		// bounded wait for the second downloads while R1 is still held
+		answered := 0
+		timeout := time.After(300 * time.Millisecond)
+	wait:
+		for answered < len(r2) {
+			select {
+			case <-timeout:
+				break wait
+			default:
+			}
+			answered = 0
+			for _, d := range r2 {
+				answered += len(d)
+			}
+			if answered < len(r2) {
+				time.Sleep(200 * time.Microsecond)
+			}
+		}
+		if held > 0 {
+			if answered == len(r2) {
+				s.c.Note("http.S7.R2-answered-before-release")
+			} else {
+				s.c.Note("http.S7.R2-waited-for-R1")
+			}
+		}
+		h.releaseAll(r1, held)
+		for _, d := range r2 {
+			<-d
+		}
+		h.call(5, c13Call{kind: 'a', p: p})
+	}
 }
 
 // random concurrent HTTP history: 2..4 clients, 2..8 requests each, nothing blocked
